@@ -166,7 +166,10 @@ def _judge(m, cs, stub, text, phase=""):
         node = declared.get(n)
         if node is None:
             continue
-        T = cs.resolve(n)
+        T = lib(getattr, cs, n)  # as a user reaches it: an attribute of the cstruct object
+        if isinstance(T, Err):
+            problems.append(f"{n!r} is a name of the type table and declared in the stub, but cs.{n} raises {T}")
+            continue
         if isinstance(node, ast.ClassDef):
             if issubclass(T, m.Structure):
                 if node.name != T.__name__:
@@ -307,10 +310,26 @@ def _run_base_names(case, ctx):
     r = lib(cs.load, text, compiled=case["compiled"])
     if isinstance(r, Err):
         raise Violation("definition-rejected", f"{r}", r.where)
+    # the longest chain of by-name aliases for which a stub can still be generated (the resolver follows a bounded number
+    # of links): everything that stub declares is provided by the object, the deepest alias included
+    depth = 0
+    for d_ in range(2, 16):
+        probe = m.cstruct()
+        probe.load("typedef uint32 ref0;")
+        for i in range(1, d_):
+            probe.add_type(f"ref{i}", f"ref{i - 1}")
+        if isinstance(lib(stubgen.generate_cstruct_stub, probe), Err):
+            break
+        depth = d_
+    cs.load("typedef uint32 ref0;")
+    for i in range(1, depth):
+        cs.add_type(f"ref{i}", f"ref{i - 1}")
+    text += "typedef uint32 ref0;\n" + "".join(f"(add_type ref{i} -> ref{i - 1})\n" for i in range(1, depth))
     stub = lib(stubgen.generate_cstruct_stub, cs)
     if isinstance(stub, Err):
         raise Violation("stubgen-raised", f"{stub}", stub.where)
     declared = _judge(m, cs, stub, text)
+    ctx.count("base-names:alias-chain-depth", depth)
     node = declared.get("my_t")
     if not isinstance(node, ast.ClassDef) or lib(getattr, cs, node.name) is not cs.my_t:
         raise Violation("stub-mismatch", f"the custom type my_t is declared as {ast.unparse(node) if node is not None else None!r}\n{stub[:600]}")
